@@ -57,6 +57,11 @@ def run():
         sys.path.insert(0, root)
         from checks import life_diff
         life_diff.build(jobs=12)
+    if os.path.exists(os.path.join(root, "harness-par")):
+        sys.path.insert(0, root)
+        from checks import parcheck
+        parcheck.build_harness(std=False)
+        parcheck.build_harness(std=True)
     if os.path.exists(os.path.join(root, "harness-conc")):
         sys.path.insert(0, root)
         from checks import conc_diff
